@@ -17,7 +17,7 @@ LEVEL_TEXT = (
     "(C02_balance; with a minted and a burnt amount in the change, C02_balance_mint); "
     "a position that holds one number accepts exactly a number or a value with exactly one entry whose amount is again "
     "such a shape, to any depth, and refuses a value of no class or of several (C02_scalar_shape: an iff with the "
-    "inductive ScalarOf; C02_scalar_total, C02_no_class_refused, C02_two_classes_refused; on the real compile(): "
+    "inductive ScalarOf; C02_scalar_total, C02_scalar_nest: wrapping in one-entry values never changes the number read; C02_no_class_refused, C02_two_classes_refused; on the real compile(): "
     "clause exact:<position>:not-a-number-accepted over every one-number position x every shape of value); "
     "out-of-range values make the model return an error. The two remaining silent alterations (negative lovelace "
     "wraps, negative native asset dropped - both pinned by hashes in the repository's own tests) are proved as "
@@ -38,7 +38,7 @@ THEOREMS = ["Tx3.C02_fee_exact", "Tx3.C02_validity_exact", "Tx3.C02_mint_range",
             "Tx3.view_triples", "Tx3.range_triples", "Tx3.compile_view", "Tx3.den_odd", "Tx3.C02_source_to_output",
             "Tx3.den_minusAll", "Tx3.C02_balance", "Tx3.C02_balance_mint",
     "Tx3.C02_zero_mint_refused", "Tx3.C01_optional_output_kept_iff",
-    "Tx3.C02_scalar_shape", "Tx3.C02_scalar_total", "Tx3.C02_no_class_refused", "Tx3.C02_two_classes_refused"]
+    "Tx3.C02_scalar_shape", "Tx3.C02_scalar_total", "Tx3.C02_scalar_nest", "Tx3.C02_no_class_refused", "Tx3.C02_two_classes_refused"]
 ASSUMPTIONS = [cc.MODEL_NOTE,
                "pallas' CBOR encoder is not modelled: its output is read back by the independent Lean reader",
                "spec oracle: expected quantities are computed from the constant template by plain integer arithmetic in the driver"]
